@@ -259,6 +259,7 @@ def run(mod, args, seed, t0, tree):
         cov.update(states=agg['states'], transitions=agg['transitions'],
                    traces_validated_against_impl=agg['traces'])
     cov.update(fin.get('coverage', {}))
+    exhaustive = bool(cov.get('exhaustive'))
     ev = {'property_id': prop, 'tier': tier, 'seed': seed, 'level': mod.LEVEL, 'coverage': cov,
           'assumptions': list(mod.ASSUMPTIONS), 'wall_s': round(wall, 2), 'violations': len(new)}
     evdir = os.path.join(util.out_dir(), 'evidence')
